@@ -125,22 +125,23 @@ def run(ck, replay=None):
         for i in (5, 30000, len(cases) - 3):
             if i < len(cases):
                 ck.sample({'case': cases[i][0], 'impl': impl[i], 'documented': cases[i][2]})
-    # --- unsupported selection / sorting rules (shared with C18): 6 classes x 81 pairs
+    # --- unsupported selection / sorting rules (shared with C18): 6 classes x nev in {1,2,3} x 81 pairs
     if ok18:
         okset = {'h_sel': {0, 3, 4, 7, 8}, 'h_sort': {0, 3, 4, 7}, 'g': {0, 1, 2, 4, 5, 6}}
         rl, exp = [], []
         for cls, fam in [('SymEigsSolver', 'h'), ('HermEigsSolver', 'h'), ('SymEigsShiftSolver', 'h'), ('GenEigsSolver', 'g'),
                          ('GenEigsRealShiftSolver', 'g'), ('GenEigsComplexShiftSolver', 'g')]:
-            for a in range(9):
-                for b in range(9):
-                    rl.append('solver %s %d %d' % (cls, a, b))
-                    ok = (a in okset['h_sel'] and b in okset['h_sort']) if fam == 'h' else (a in okset['g'] and b in okset['g'])
-                    exp.append('ok' if ok else INV)
+            for nev_ in (1, 2, 3):
+                for a in range(9):
+                    for b in range(9):
+                        rl.append('solver %s %d %d %d' % (cls, a, b, nev_))
+                        ok = (a in okset['h_sel'] and b in okset['h_sort']) if fam == 'h' else (a in okset['g'] and b in okset['g'])
+                        exp.append('ok' if ok else INV)
         rc, got = run_lines(exe18, rl)
         badr = [(l, g, e) for l, g, e in zip(rl, got, exp) if g != e]
         for l in rl:
             ck.count(l)
-        ck.oblige('compute() accepts exactly the documented selection/sorting rules (486 calls)', rc == 0 and len(got) == len(rl) and not badr,
+        ck.oblige('compute() accepts exactly the documented selection/sorting rules (6 classes x nev in {1,2,3} x 81 rule pairs = 1458 calls)', rc == 0 and len(got) == len(rl) and not badr,
                   'case `%s`: impl `%s`, documented `%s`' % badr[0] if badr else '')
         if badr and not first_fail:
             first_fail = {'cases': [badr[0][0]], 'observed': badr[0][1], 'expected': badr[0][2], 'clause': 'unsupported rule'}
